@@ -136,7 +136,8 @@ const magicByteOffset = 16
 // could not be read.
 func (rs *RecordSet) ReadFrom(r io.Reader) (int64, error) {
 	d, _ := r.(*decoder)
-	if d == nil {
+	standalone := d == nil
+	if standalone {
 		d = &decoder{
 			reader: r,
 			remain: 4,
@@ -156,6 +157,11 @@ func (rs *RecordSet) ReadFrom(r io.Reader) (int64, error) {
 	}
 
 	remain := d.remain
+	if standalone {
+		// r is not a message being decoded, there is no enclosing frame to
+		// bound the record set: it extends as far as it says.
+		remain = int(size)
+	}
 	if int(size) > remain {
 		return 4, fmt.Errorf("record set of size %d exceeds the %d bytes left in the message", size, remain)
 	}
